@@ -240,16 +240,18 @@ def all_base(case):
     return bc, bp
 
 
-def expected(case, who="d0"):
+def expected(case, who="d0", upto=2):
     """reference semantics of the statement: scenario wins, base fills, later settings win; model's own otherwise.
     who = "d0": the addressed scenario (with the later settings `d`); "sib": the sibling; "none": a scenario without overrides"""
     bc, bp = all_base(case)
     d0 = case.get(who) or {} if who != "none" else {}
-    d = (case.get("d") or {}) if who == "d0" else {}
-    consts = fill(d0.get("consts") or {}, bc); consts.update(d.get("consts") or {})
-    pts = fill(d0.get("pts") or {}, bp); pts.update(d.get("pts") or {})
+    later = [case.get("d") or {}, case.get("d2") or {}][:upto] if who == "d0" else []
+    consts = fill(d0.get("consts") or {}, bc)
+    pts = fill(d0.get("pts") or {}, bp)
+    for d in later:
+        consts.update(d.get("consts") or {}); pts.update(d.get("pts") or {})
     rs = list(mrs_of(case))
-    for src in (d0, d):
+    for src in [d0] + later:
         for j, key in enumerate(("start", "stop", "dt")):
             if src.get(key) is not None:
                 rs[j] = src[key]
@@ -262,6 +264,20 @@ def file_list(case):
     return [files[j] for j in order]            # the model reads the files in ANOTHER order than the code (multi_file_merge_n)
 
 
+def merged_later(case):
+    """two successive settings dictionaries as one (newest wins key by key) — for the one-shot `settings` line of the model; the
+    sequential path is replayed through the manager machine (`mconf` twice)"""
+    d, d2 = case.get("d") or {}, case.get("d2") or {}
+    out = {}
+    for kind in ("consts", "pts"):
+        m = {**(d.get(kind) or {}), **(d2.get(kind) or {})}
+        if m: out[kind] = m
+    for key in ("start", "stop", "dt"):
+        v = d2.get(key) if d2.get(key) is not None else d.get(key)
+        if v is not None: out[key] = v
+    return out
+
+
 def model_line(case, who="d0"):
     mrs = "/".join(map(str, mrs_of(case))); mpts = K.st(DEF_PTS)
     d0 = case.get(who) or {}
@@ -272,7 +288,7 @@ def model_line(case, who="d0"):
         if who == "d0" and case.get("d"):
             return f"fsettings {mrs} {mpts} {files} {K.dict_args(d0)} {K.dict_args(case['d'])}"
         return f"file {mrs} {mpts} {files} {K.dict_args(d0)}"
-    return f"settings {mrs} {mpts} {K.st(case['bc'])} {K.st(case['bp'])} {K.dict_args(d0)} {K.dict_args(case.get('d') or {})}"
+    return f"settings {mrs} {mpts} {K.st(case['bc'])} {K.st(case['bp'])} {K.dict_args(d0)} {K.dict_args(merged_later(case))}"
 
 
 def sd_(x):
@@ -359,6 +375,7 @@ def write_file_case(root, n, case):
     return sub
 
 
+EXTRA = {}    # case number -> {"r1": results after the first of two settings, "post": batch run after the last settings}
 SIB = {}      # case number -> {"views": {name: (view, results)}, "base": {...}} | {"error": ...}
 
 
@@ -459,32 +476,57 @@ def run_case(case, root, n):
                 out = view_of(sc, case["model"]), frame_to_dict(res, "mf", "s0"), None
                 sibling_views(b, n, case["model"])
                 return out
-            if case["channel"] == "rest":
+            app = None
+            def rest_run(settings):
+                nonlocal app
                 from BPTK_Py.server import BptkServer
-                app = BptkServer(__name__, bptk_factory=lambda: b)
-                resp = app.test_client().post("/run", json={"settings": {"mf": {"s0": mk_dict(case, "d")}}, "scenario_managers": ["mf"],
-                                                            "scenarios": ["s0"], "equations": list(EQS)})
-                if resp.status_code != 200:
-                    return view_of(sc, case["model"]), {}, f"HTTP {resp.status_code}"
-                out = view_of(sc, case["model"]), frame_to_dict(json.loads(resp.data), "mf", "s0"), None
-                sibling_views(b, n, case["model"])
-                return out
-            # session
-            e = expected(case)
-            b.begin_session(scenarios=["s0"], scenario_managers=["mf"], settings={"mf": {"s0": mk_dict(case, "d")}}, equations=list(EQS),
-                            starttime=0.0, dt=e["rs"][2] / 2.0)
-            out = {eq: {} for eq in EQS}
-            for _ in range(40):
-                r = b.run_step(settings={})
-                if not r or "msg" in r:
-                    break
-                for eq, tv in (r.get("mf", {}).get("s0", {}) or {}).items():
-                    for t, v in tv.items():
-                        out.setdefault(eq, {})[float(t)] = float(v)
-            v = view_of(sc, case["model"])
-            b.end_session()
+                if app is None:
+                    app = BptkServer(__name__, bptk_factory=lambda: b)
+                body = {"scenario_managers": ["mf"], "scenarios": ["s0"], "equations": list(EQS)}
+                if settings is not None:
+                    body["settings"] = {"mf": {"s0": settings}}
+                resp = app.test_client().post("/run", json=body)
+                return frame_to_dict(json.loads(resp.data), "mf", "s0") if resp.status_code == 200 else f"HTTP {resp.status_code}"
+            def session_run(settings, steps=40):
+                kw = {"settings": {"mf": {"s0": settings}}} if settings is not None else {}
+                b.begin_session(scenarios=["s0"], scenario_managers=["mf"], equations=list(EQS), starttime=0.0, **kw)
+                out = {eq: {} for eq in EQS}
+                for _ in range(steps):
+                    r = b.run_step(settings={})
+                    if not r or "msg" in r:
+                        break
+                    for eq, tv in (r.get("mf", {}).get("s0", {}) or {}).items():
+                        for t, v in tv.items():
+                            out.setdefault(eq, {})[float(t)] = float(v)
+                v = view_of(sc, case["model"])
+                b.end_session()
+                return v, out
+            # wave 6: an EVALUATION of the scenario before the settings arrive (the model has been used: memo, derived tables exist)
+            pre = case.get("pre")
+            if pre == "run":
+                b.run_scenarios(scenarios=["s0"], scenario_managers=["mf"], equations=list(EQS), series_names={}, return_format="dict")
+            elif pre == "step":
+                session_run(None, steps=2)
+            elif pre == "rest":
+                rest_run(None)
+            extra = {}
+            later = ["d"] + (["d2"] if case.get("d2") is not None else [])
+            for j, w in enumerate(later):
+                if case["channel"] == "rest":
+                    res = rest_run(mk_dict(case, w))
+                    if isinstance(res, str):
+                        return view_of(sc, case["model"]), {}, res
+                    v = view_of(sc, case["model"])
+                else:
+                    v, res = session_run(mk_dict(case, w))
+                if j + 1 < len(later):
+                    extra["r1"] = res                     # after the first of two successive settings
+            # … and a run after the last settings: a plain batch run of the scenario, graphical functions included
+            post = b.run_scenarios(scenarios=["s0"], scenario_managers=["mf"], equations=list(EQS) + ["g0", "g1"], series_names={}, return_format="dict")
+            extra["post"] = frame_to_dict(post, "mf", "s0")
+            EXTRA[n] = extra
             sibling_views(b, n, case["model"])
-            return v, out, None
+            return v, res, None
         finally:
             b.destroy()
             if xm:
@@ -534,6 +576,17 @@ def rand_case(rng, channel, model):
         case["mrs"] = list(rng.choice(MRS_CHOICES))
     if channel in ("session", "rest") or (channel == "file" and rng.chance(1, 3)):
         case["d"] = dct(rs_ok)
+    if channel in ("session", "rest"):
+        # wave 6: the scenario has been EVALUATED before the settings arrive (run / session steps / REST run), and half of the cases
+        # supply a second settings dictionary afterwards, preferably for a key the first one already set
+        case["pre"] = rng.choice([None, "run", "step", "rest", "run", "rest"])
+        if rng.chance(1, 2):
+            d2 = dct(rs_ok)
+            for kind, nk in (("consts", 3), ("pts", 2)):
+                if case["d"].get(kind) and rng.chance(2, 3):
+                    k = rng.choice(sorted(case["d"][kind]))
+                    d2.setdefault(kind, {})[k] = rng.range(0, 9)
+            case["d2"] = d2
     case["sib"] = dct(False) if rng.chance(1, 2) else {}
     if channel == "file":
         # base values of the manager spread over 0..3 further files; a key is bound by one file only, or by several files
@@ -558,6 +611,8 @@ def rand_case(rng, channel, model):
              ("sib", case["sib"].get("consts") or {}, case["sib"].get("pts") or {})]
     if "d" in case:
         where.append(("d", case["d"].get("consts") or {}, case["d"].get("pts") or {}))
+    if "d2" in case:
+        where.append(("d2", case["d2"].get("consts") or {}, case["d2"].get("pts") or {}))
     for j, (fc, fp) in enumerate(case["files2"]):
         where.append((f"f{j}", fc, fp))
     for w, cs, ps in where:
@@ -567,7 +622,7 @@ def rand_case(rng, channel, model):
             elif r < 3: strs.append([w, "c", k, "int"])
         for k in ps:
             if rng.chance(1, 5): strs.append([w, "p", k, "str"])
-    for w in ("d0", "d"):
+    for w in ("d0", "d", "d2"):
         for key in ("start", "stop"):
             if (case.get(w) or {}).get(key) is not None and rng.chance(1, 3):
                 strs.append([w, "r", key, "int"])                    # run specs as Python ints (`starttime: 0`)
@@ -601,6 +656,13 @@ FIXED = [
     {"channel": "session", "model": "dsl", "bc": {}, "bp": {}, "d0": {"start": 2}, "d": {"start": 0, "consts": {0: 0}}, "files2": [], "str": [["d", "r", "start", "int"]]},
     {"channel": "rest", "model": "dsl", "mrs": [1, 5, 2], "bc": {}, "bp": {}, "d0": {}, "d": {"start": 0}, "files2": []},
     {"channel": "rest", "model": "dsl", "bc": {}, "bp": {}, "d0": {"start": 1}, "d": {"start": 0, "consts": {2: 0}}, "files2": [], "str": [["d", "r", "start", "int"]]},
+    # wave 6: evaluate, THEN supply points / constants / run specs as settings, then run again (twice for the same key)
+    {"channel": "session", "model": "dsl", "bc": {}, "bp": {}, "d0": {}, "pre": "run", "d": {"pts": {0: 7}}, "files2": []},
+    {"channel": "rest", "model": "dsl", "bc": {}, "bp": {}, "d0": {}, "pre": "rest", "d": {"pts": {1: 2}}, "d2": {"pts": {1: 8}, "consts": {2: 4}}, "files2": []},
+    {"channel": "rest", "model": "dsl", "bc": {}, "bp": {0: 3}, "d0": {}, "pre": "step", "d": {"pts": {0: 6}, "dt": 1}, "d2": {"pts": {0: 1}, "start": 1}, "files2": []},
+    {"channel": "session", "model": "dsl", "mrs": [1, 5, 2], "bc": {1: 2}, "bp": {}, "d0": {"pts": {0: 4}}, "pre": "step", "d": {"consts": {1: 5}, "pts": {0: 9}}, "d2": {"consts": {1: 0}, "pts": {0: 0}, "start": 0}, "files2": []},
+    {"channel": "session", "model": "xmile", "bc": {}, "bp": {}, "d0": {}, "pre": "run", "d": {"pts": {0: 7}}, "d2": {"pts": {0: 2}}, "files2": []},
+    {"channel": "rest", "model": "xmile", "bc": {}, "bp": {1: 3}, "d0": {}, "pre": "rest", "d": {"pts": {1: 7}, "consts": {0: 3}}, "files2": []},
     # n files, YAML + JSON, a consistent duplicate, string-valued and int-valued settings
     {"channel": "file", "model": "dsl", "bc": {0: 4}, "bp": {}, "d0": {"consts": {1: 3}, "pts": {1: 6}}, "sib": {"consts": {2: 5}},
      "files2": [({2: 8}, {0: 2}), ({0: 4}, {}), ({1: 7}, {0: 2})], "fmt": ["yml", "json", "yml", "json"], "order": [3, 1, 0, 2],
@@ -671,6 +733,8 @@ def probe(root):
     facts["fileRunspecsKept"] = bool(v) and v["rs"] == (1, 3, 1)
     facts["ownsDictsDetail"] = probe_owns_dicts(root)
     facts["scenarioOwnsDicts"] = bool(facts["ownsDictsDetail"].get("dict")) and bool(facts["ownsDictsDetail"].get("file"))
+    facts["evalRows"] = probe_eval_reads_current()
+    facts["evalReadsCurrent"] = all(e == o for _, e, o in facts["evalRows"])
     try:
         facts["overrideByPresence"] = probe_presence()
     except Exception as e:
@@ -678,9 +742,40 @@ def probe(root):
     return facts
 
 
-FACTS = ("runspecStartApplied", "fileRunspecsKept", "scenarioOwnsDicts", "overrideByPresence")
+FACTS = ("runspecStartApplied", "fileRunspecsKept", "scenarioOwnsDicts", "overrideByPresence", "evalReadsCurrent")
+
+
+def probe_eval_reads_current():
+    """evaluate -> change -> evaluate on the real settings path, per setting kind: rows (kind, expected code, observed code).
+    kind 0 = constant, 1 = points of a NAMED graphical function, 2 = run specs (start time).  The change goes the way session / REST
+    settings go: SimulationScenario.configure_settings, reset_scenario_cache, then the runner applies the scenario to its model."""
+    from BPTK_Py import bptk
+    rows = []
+    with contextlib.redirect_stdout(io.StringIO()):
+        for kind, stg in ((0, {"constants": {"c2": 7.0}}), (1, {"points": {"p1": K.pts_val(7)}}), (2, {"runspecs": {"starttime": 1.0}})):
+            b = bptk(); quiet_bptk_logging()
+            try:
+                b.register_scenario_manager({"mf": {"model": K.build(DEF_CONST, DEF_PTS, DEF_RS)}})
+                b.register_scenarios(scenarios={"s0": {}}, scenario_manager="mf")
+                run = lambda: frame_to_dict(b.run_scenarios(scenarios=["s0"], scenario_managers=["mf"], equations=["h", "g1", "c2", "s"], series_names={},
+                                                            return_format="dict"), "mf", "s0")
+                run()                                                            # evaluate
+                b.get_scenario("mf", "s0").configure_settings(stg)               # change (as begin_session / REST do)
+                b.reset_scenario_cache(scenario_manager="mf", scenario="s0")
+                r = run()                                                        # evaluate
+                if kind == 0:
+                    rows.append((0, 7, int(r["c2"][0.0])))
+                elif kind == 1:
+                    rows.append((1, 7, int(r["g1"][0.0])))
+                else:
+                    rows.append((2, 1, int(min(r["s"]))))
+            except Exception as e:
+                rows.append((kind, 1, 0))
+            finally:
+                b.destroy()
+    return rows
 WITNESS = {"runspecStartApplied": "C07_witness_start", "fileRunspecsKept": "C07_witness_file", "scenarioOwnsDicts": "C07_witness_shared_base",
-           "overrideByPresence": "C07_witness_falsy_override"}
+           "overrideByPresence": "C07_witness_falsy_override", "evalReadsCurrent": "C07_witness_derived_table"}
 
 
 def probe_presence():
@@ -705,6 +800,10 @@ def gen_lean(f):
     else:
         body = f"theorem violated : ¬ C07_full cfg := {WITNESS[bad[0]]} cfg (by decide)\n#print axioms violated\n"
     fields = ", ".join(f"{k} := {'true' if f[k] else 'false'}" for k in FACTS)
+    rows = ", ".join(f"({k}, {e}, {o})" for k, e, o in f.get("evalRows", []))
+    body += (f"/-- evaluate → change → evaluate on the real code, per setting kind (0 constant, 1 named graphical function, 2 start time): "
+             f"(kind, value the settings demand, value the second evaluation used) -/\ndef evalRows : List (Nat × Nat × Nat) := [{rows}]\n"
+             f"theorem evalRows_verdict : evalRows.all (fun r => r.2.1 == r.2.2) = {'true' if f['evalReadsCurrent'] else 'false'} := by decide\n")
     return ("import Bptk.Props.C07\n/-! GENERATED by harness/props/c07.py from /repo on every run — do not edit. -/\n"
             "namespace Bptk.C07.Gen\n"
             f"def cfg : Cfg := {{ {fields} }}\n" + body + "end Bptk.C07.Gen\n")
@@ -716,7 +815,7 @@ def check_case(case, root, n):
     exp = expected(case)
     ch, xm = case["channel"], case["model"] == "xmile"
     tag = f"{ch}-xmile" if xm else ch
-    SIB.pop(n, None)
+    SIB.pop(n, None); EXTRA.pop(n, None)
     try:
         v, res, err = run_case(case, root, n)
     except Exception as e:
@@ -736,6 +835,31 @@ def check_case(case, root, n):
     if res != want and not (xm and viols):
         viols.append((f"{tag}-results", K.first_diff(res, want) + f"; model built directly with consts={exp['meqs']} points={exp['mpts']} runspecs={exp['mrs']}"))
     pairs = [(model_line(case), v)]
+    extra = EXTRA.pop(n, None)
+    if extra is not None and not viols:
+        if "r1" in extra:
+            e1 = expected(case, upto=1)
+            w1 = oracle(case["model"], e1)
+            if extra["r1"] != w1:
+                viols.append((f"{tag}-results-after-first-settings", K.first_diff(extra["r1"], w1) + f"; model built directly with consts={e1['meqs']} points={e1['mpts']} runspecs={e1['mrs']}"))
+        post = {eq: tv for eq, tv in extra["post"].items() if eq in EQS}
+        wpost = oracle(case["model"], exp)
+        if not viols and post != wpost:
+            viols.append((f"{tag}-results-run-after-settings", "batch run after the settings: " + K.first_diff(post, wpost) +
+                          f"; model built directly with consts={exp['meqs']} points={exp['mpts']} runspecs={exp['mrs']}"))
+        if not viols:
+            # application reaches evaluation: the evaluation machine of the Lean model on the same history; what the last evaluation
+            # read for each graphical function = the level of g_j at the start time in the real results
+            t0 = float(exp["mrs"][0])
+            reads = {j: int(round(extra["post"]["g%d" % j][t0] - 0.5 * t0)) for j in range(2)}
+            mrs = "/".join(map(str, mrs_of(case)))
+            ap = lambda e: f"eapply {K.st(e['consts'])} {K.st(e['pts'])} {'/'.join(map(str, e['rs']))}"
+            pairs.append((f"enew {mrs} {K.st(DEF_PTS)}", "ok"))
+            if case.get("pre"):
+                pairs += [(ap(expected(case, upto=0)), "ok"), ("eeval", "ok")]
+            for u in range(1, 2 + (1 if case.get("d2") is not None else 0)):
+                pairs += [(ap(expected(case, upto=u)), "ok"), ("eeval", "ok")]
+            pairs += [(ap(exp), "ok"), ("eeval", "ok"), ("eread 0", str(reads[0])), ("eread 1", str(reads[1]))]
     sib = SIB.pop(n, None)
     if sib is not None and not viols:
         if "error" in sib:
@@ -769,6 +893,8 @@ def check_case(case, root, n):
                               (f"madd 1 {K.dict_args(case['sib'])}", "ok")]
                     if ch in ("session", "rest"):
                         pairs.append((f"mconf 0 {K.dict_args(case.get('d') or {})}", "ok"))
+                        if case.get("d2") is not None:
+                            pairs.append((f"mconf 0 {K.dict_args(case['d2'])}", "ok"))
                     pairs.append((f"madd 2 {K.dict_args({})}", "ok"))
                     sel = lambda x: {k: x[k] for k in ("consts", "pts", "rs")}
                     pairs += [("mview 0", sel(v)), ("mview 1", sel(sib["views"]["sib"][0])), ("mview 2", sel(sib["views"]["late"][0])),
@@ -798,6 +924,15 @@ def shrink(case, key, root):
                 for key_ in ("start", "stop", "dt"):
                     if c[w].get(key_) is not None:
                         d = copy.deepcopy(c); del d[w][key_]; yield d
+        if c.get("d2") is not None:
+            d = copy.deepcopy(c); del d["d2"]; yield d
+        for w in ("d2",):
+            if c.get(w):
+                for kind in ("consts", "pts"):
+                    for k in list(c[w].get(kind) or {}):
+                        d = copy.deepcopy(c); del d[w][kind][k]
+                        if not d[w][kind]: del d[w][kind]
+                        yield d
         for j in range(len(c["files2"])):
             d = copy.deepcopy(c); del d["files2"][j]
             d["str"] = [s for s in d["str"] if not s[0].startswith("f")]
@@ -890,12 +1025,15 @@ def _run(chk, root):
         small = shrink(case, key, root)
         vv = [t for k, t in check_case(small, root, 7778)[1] if k == key]
         chk.add_finding(key, f"{small['channel']} channel, {small['model']} model (own run specs {mrs_of(small)}), base_constants={small['bc']} base_points={small['bp']} scenario={small['d0']} "
-                        f"sibling={small['sib']} settings={small.get('d')} files2={small['files2']} value forms={small['str']}: {vv[0] if vv else text}", {"case": small})
+                        f"sibling={small['sib']} evaluated before the settings={small.get('pre')} settings={small.get('d')} then={small.get('d2')} files2={small['files2']} value forms={small['str']}: {vv[0] if vv else text}", {"case": small})
     if not facts["scenarioOwnsDicts"] and not any("sibling" in k or "manager-base" in k for k in first):
         chk.add_finding("shared-base-dict", "probe: a scenario without an own constants/points block carries the manager's base dictionary itself; configure_settings "
                         "({'constants': {'c0': 9.0}, 'points': {'p0': …}}) on one scenario of a manager with base_constants {'c0': 4.0}, base_points {'p0': …} changed a sibling, "
                         f"a later scenario or the manager's base values (dict registration ok: {facts['ownsDictsDetail'].get('dict')}, scenario files ok: {facts['ownsDictsDetail'].get('file')})",
                         {"probe": facts["ownsDictsDetail"], "theorem": "Bptk.C07.C07_witness_shared_base"})
+    if not facts["evalReadsCurrent"] and not any("results" in k for k in first):
+        chk.add_finding("settings-after-evaluation", f"probe: evaluate, supply settings, evaluate — the second evaluation does not use the supplied value: rows (kind, demanded, used) = {facts['evalRows']}",
+                        {"probe_rows": facts["evalRows"], "theorem": "Bptk.C07.C07_witness_derived_table"})
     if not ok:
         chk.add_finding("obligation", f"proof obligations of C07 no longer check: {why}", {"theorem": "Bptk.C07.Gen.holds", "detail": why}, found_input=False)
     if diff is not None and not first:
